@@ -138,7 +138,7 @@ var c06Quick = []Mix{
 	{Gen: "phrases", N: 0},
 	{Gen: "special5", N: 0},
 	{Gen: "tokseq", N: 3},
-	{Gen: "scale1", N: 288 << 10}, {Gen: "seam"}, {Gen: "nulpad"}, {Gen: "wrapcount"}, {Gen: "foldalias"}, {Gen: "qualified"}, {Gen: "gluelit"}, {Gen: "encatk"}, {Gen: "dialect"}, {Gen: "prose"}, {Gen: "doubled"},
+	{Gen: "scale1", N: 288 << 10}, {Gen: "seam"}, {Gen: "nulpad"}, {Gen: "wrapcount"}, {Gen: "foldalias"}, {Gen: "qualified"}, {Gen: "gluelit"}, {Gen: "encatk"}, {Gen: "dialect"}, {Gen: "prose"}, {Gen: "doubled"}, {Gen: "toktails"},
 }
 
 var c06Thorough = []Mix{
@@ -156,7 +156,7 @@ var c06Thorough = []Mix{
 	{Gen: "phrases", N: 1},
 	{Gen: "special5", N: 1},
 	{Gen: "tokseq", N: 5},
-	{Gen: "scale1", N: 288 << 10}, {Gen: "scale", N: 70000}, {Gen: "seam", N: 1}, {Gen: "nulpad"}, {Gen: "wrapcount"}, {Gen: "foldalias"}, {Gen: "qualified"}, {Gen: "gluelit"}, {Gen: "encatk"}, {Gen: "dialect"}, {Gen: "prose"}, {Gen: "doubled"},
+	{Gen: "scale1", N: 288 << 10}, {Gen: "scale", N: 70000}, {Gen: "seam", N: 1}, {Gen: "nulpad"}, {Gen: "wrapcount"}, {Gen: "foldalias"}, {Gen: "qualified"}, {Gen: "gluelit"}, {Gen: "encatk"}, {Gen: "dialect"}, {Gen: "prose"}, {Gen: "doubled"}, {Gen: "toktails"},
 }
 
 // C06 — SQLi pipeline conforms to the reference algorithm.
